@@ -145,6 +145,7 @@ type caseT struct {
 	hasTLS bool
 	chunks []int // delivery: sizes of the segments of raw (rest in one piece)
 	lock   bool  // lockstep delivery: wait for idle between chunks
+	pre    int   // number of leading chunks that belong to the startup exchange (default 1)
 }
 
 func (e *errT) sx() string {
@@ -250,7 +251,14 @@ func (c *caseT) sxHead() string {
 	if c.hasTLS {
 		t = hx(c.tls)
 	}
-	return strings.Join([]string{c.cfg.sx(), sx("raw", c.raw), sx("tlsin", t), sx(ch...), sx("lock", c.lock)}, " ")
+	return strings.Join([]string{c.cfg.sx(), sx("raw", c.raw), sx("tlsin", t), sx(ch...), sx("lock", c.lock), sx("pre", c.preN())}, " ")
+}
+
+func (c *caseT) preN() int {
+	if c.pre <= 0 {
+		return 1
+	}
+	return c.pre
 }
 
 // ---- reading a case back (replay) ----
@@ -362,5 +370,8 @@ func caseFrom(n *node) *caseT {
 		c.chunks = append(c.chunks, atoi(k.atom))
 	}
 	c.lock = n.field("lock").list[1].atom == "1"
+	if pn := n.field("pre"); pn != nil {
+		c.pre = atoi(pn.list[1].atom)
+	}
 	return c
 }
